@@ -144,6 +144,26 @@ def check(run):
     if fails:
         cfg, what = fails[0]
         run.violation("bounded:compose.layout", "layout resolved as documented", "%r: %s" % (cfg, what), LAYOUT_SCRIPT % {"cfg": cfg})
+    # the accessor contracts evaluated natively on real directories: every combination of {absent, valid, undecodable} per candidate name
+    import random
+    for a in ("info", "images", "rpms", "modules"):
+        con = c.contracts["prop:compose.Compose.%s" % a]
+        t1 = time.time()
+        bad = []
+        n = 0
+        for inputs in con.sample_inputs(random.Random(run.seed)):
+            nat, cl = con.native_eval(inputs)
+            if nat[0] == "skip":
+                continue
+            n += 1
+            for k, v in cl.items():
+                if v is False:
+                    bad.append((inputs, k))
+        run.add_bounded(con.name, "accessor contract on real directories",
+                        "each candidate file name absent / valid / undecodable, directly under the path or under compose/", n, bad,
+                        seconds=time.time() - t1)
+        if bad:
+            run.violation("bounded:%s" % con.name, bad[0][1], con.describe(bad[0][0]), con.replay_script(bad[0][0], bad[0][1]))
     run.assume("A4: os.path.join/exists/listdir as documented; listdir order arbitrary")
     run.note("Compose.__init__ is proved for local absolute paths with a listing of 0-1 (quick) / 2 (thorough) entries: bounded in the NUMBER of "
              "directory entries; URL access is outside the contract")
